@@ -22,6 +22,11 @@ Section Unfold.
       | KVal _ _ _ =>
           let s := match prev with
                    | Some (KOut t st) => set_val s v (lookup (KOut t st) (s_vals s))
+                   | Some (KVal n2 t2 s2) =>
+                       match lookup (KVal n2 t2 s2) (s_vals s) with
+                       | Some x => set_val s v (Some x)
+                       | None => s
+                       end
                    | _ => s end in
           let cur := lookup v (s_vals s) in
           let s := set_last s cur in
@@ -288,11 +293,17 @@ Section Footprint.
     - exists final, s. split; reflexivity.
     - pose (s1 := match prev with
                   | Some (KOut t0 st0) => set_val s (KVal n t st) (lookup (KOut t0 st0) (s_vals s))
+                  | Some (KVal n2 t2 s2) =>
+                      match lookup (KVal n2 t2 s2) (s_vals s) with
+                      | Some x => set_val s (KVal n t st) (Some x)
+                      | None => s
+                      end
                   | _ => s end).
       exists (match lookup (KVal n t st) (s_vals s1) with Some x => Some x | None => final end),
              (set_last s1 (lookup (KVal n t st) (s_vals s1))).
       split; [|reflexivity].
-      subst s1. destruct prev as [[]|]; reflexivity.
+      subst s1. destruct prev as [[|ft0|n2 t2 s2|t0 st0|t0 st0]|]; try reflexivity.
+      destruct (lookup (KVal n2 t2 s2) (s_vals s)); reflexivity.
     - pose (s1 := match s_last s with
                   | Some x => if assignable u (v_ty x) t then set_val s (KArg t st) (Some x) else s
                   | None => s end).
